@@ -146,7 +146,8 @@ struct AnyLock {
         return stm.try_lock_for(d);
     }
   }
-  bool try_lock_until(yaclib_std::chrono::steady_clock::time_point tp) {
+  template <typename TP>
+  bool try_lock_until(TP tp) {
     switch (type) {
       case tTimed:
         return tm.try_lock_until(tp);
@@ -176,10 +177,43 @@ struct AnyLock {
   bool try_lock_shared_for(std::chrono::nanoseconds d) {
     return stm.try_lock_shared_for(d);
   }
-  bool try_lock_shared_until(yaclib_std::chrono::steady_clock::time_point tp) {
+  template <typename TP>
+  bool try_lock_shared_until(TP tp) {
     return stm.try_lock_shared_until(tp);
   }
 };
+
+// An absolute deadline `dur_ns` from now, expressed as a time_point of the given resolution (0 ns, 1 us, 2 ms,
+// 3 double seconds), handed to `call`; `deadline_ns` receives that time_point truncated to nanoseconds (never later than
+// the time_point itself, so "gave up at or after the deadline" stays a sound check).
+template <typename F>
+auto UntilWithUnit(int unit, u32 dur_ns, long long& deadline_ns, F&& call) {
+  using Clock = yaclib_std::chrono::steady_clock;
+  using std::chrono::duration_cast;
+  using std::chrono::nanoseconds;
+  auto base = Clock::now() + nanoseconds{dur_ns};
+  switch (unit) {
+    case 1: {
+      auto tp = std::chrono::time_point_cast<std::chrono::microseconds>(base + std::chrono::microseconds{2});
+      deadline_ns = duration_cast<nanoseconds>(tp.time_since_epoch()).count();
+      return call(tp);
+    }
+    case 2: {
+      auto tp = std::chrono::time_point_cast<std::chrono::milliseconds>(base + std::chrono::milliseconds{1});
+      deadline_ns = duration_cast<nanoseconds>(tp.time_since_epoch()).count();
+      return call(tp);
+    }
+    case 3: {
+      std::chrono::time_point<Clock, std::chrono::duration<double>> tp{base};
+      deadline_ns = duration_cast<nanoseconds>(tp.time_since_epoch()).count() - 1;  // rounding slack of the double
+      return call(tp);
+    }
+    default: {
+      deadline_ns = duration_cast<nanoseconds>(base.time_since_epoch()).count();
+      return call(base);
+    }
+  }
+}
 
 enum OpKind { oLock, oTry, oTryFor, oTryUntil, oLockShared, oTryShared, oTrySharedFor, oTrySharedUntil };
 const char* const kOpName[] = {"lock",        "try_lock",        "try_lock_for",        "try_lock_until",
@@ -193,6 +227,7 @@ struct OpSpec {
   int depth;  // recursive re-entry depth (1..3)
   u32 gap;
   bool partial = false;  // recursive types: release one level while still holding another, then acquire it again
+  int unit = 0;          // resolution of the time_point handed to the *_until forms
 };
 
 struct World {
@@ -244,11 +279,11 @@ void RunOp(World& w, int me, const OpSpec& s) {
         deadline = NowNs() + s.dur_ns;
         ok = w.lk.try_lock_for(std::chrono::nanoseconds{s.dur_ns});
         break;
-      case oTryUntil: {
-        auto tp = yaclib_std::chrono::steady_clock::now() + std::chrono::nanoseconds{s.dur_ns};
-        deadline = std::chrono::duration_cast<std::chrono::nanoseconds>(tp.time_since_epoch()).count();
-        ok = w.lk.try_lock_until(tp);
-      } break;
+      case oTryUntil:
+        ok = UntilWithUnit(s.unit, s.dur_ns, deadline, [&](auto tp) {
+          return w.lk.try_lock_until(tp);
+        });
+        break;
       case oLockShared:
         w.lk.lock_shared();
         break;
@@ -259,11 +294,11 @@ void RunOp(World& w, int me, const OpSpec& s) {
         deadline = NowNs() + s.dur_ns;
         ok = w.lk.try_lock_shared_for(std::chrono::nanoseconds{s.dur_ns});
         break;
-      default: {
-        auto tp = yaclib_std::chrono::steady_clock::now() + std::chrono::nanoseconds{s.dur_ns};
-        deadline = std::chrono::duration_cast<std::chrono::nanoseconds>(tp.time_since_epoch()).count();
-        ok = w.lk.try_lock_shared_until(tp);
-      } break;
+      default:
+        ok = UntilWithUnit(s.unit, s.dur_ns, deadline, [&](auto tp) {
+          return w.lk.try_lock_shared_until(tp);
+        });
+        break;
     }
     long long now = NowNs();
     sh.maybe[me] = 0;
@@ -398,6 +433,7 @@ void LockCase(Ctx& ctx, int type) {
       s.depth = static_cast<int>(ctx.rng.In(1, 3));
       s.gap = ctx.rng.Below(3);
       s.partial = ctx.rng.Below(3) == 0;
+      s.unit = static_cast<int>(ctx.rng.Below(4));
       p.push_back(s);
     }
   }
@@ -445,6 +481,7 @@ void CondvarCase(Ctx& ctx) {
   // releases the mutex and blocks atomically, or has already returned), then changes the state under the mutex and
   // notifies exactly once.  Nothing compensates for a lost notification then: an untimed waiter stays parked.
   bool single_shot = ctx.rng.Coin();
+  int unit = static_cast<int>(ctx.rng.Below(4));  // resolution of the time_point of the wait_until forms
   static const char* const kForm[] = {"wait", "wait(pred)", "wait_for", "wait_for(pred)", "wait_until", "wait_until(pred)"};
   ctx.Note("condition_variable %s x%d waiters, %s %s after %u yields, timeout %u ns", kForm[form], nw,
            notify_all ? "notify_all" : "notify_one per waiter", single_shot ? "exactly once" : "repeated", njit, dur);
@@ -483,16 +520,16 @@ void CondvarCase(Ctx& ctx) {
             deadline[k] = NowNs() + dur;
             pred_result[k] = cv.wait_for(lk, std::chrono::nanoseconds{dur}, pred) ? 1 : 0;
             break;
-          case 4: {
-            auto tp = yaclib_std::chrono::steady_clock::now() + std::chrono::nanoseconds{dur};
-            deadline[k] = std::chrono::duration_cast<std::chrono::nanoseconds>(tp.time_since_epoch()).count();
-            timed_out[k] = cv.wait_until(lk, tp) == std::cv_status::timeout;
-          } break;
-          default: {
-            auto tp = yaclib_std::chrono::steady_clock::now() + std::chrono::nanoseconds{dur};
-            deadline[k] = std::chrono::duration_cast<std::chrono::nanoseconds>(tp.time_since_epoch()).count();
-            pred_result[k] = cv.wait_until(lk, tp, pred) ? 1 : 0;
-          } break;
+          case 4:
+            timed_out[k] = UntilWithUnit(unit, dur, deadline[k], [&](auto tp) {
+              return cv.wait_until(lk, tp) == std::cv_status::timeout;
+            });
+            break;
+          default:
+            pred_result[k] = UntilWithUnit(unit, dur, deadline[k], [&](auto tp) {
+              return cv.wait_until(lk, tp, pred) ? 1 : 0;
+            });
+            break;
         }
         ret_at[k] = NowNs();
         if (!lk.owns_lock()) {
@@ -583,6 +620,9 @@ void CondvarCase(Ctx& ctx) {
 // threads and thread-locals
 
 static YACLIB_THREAD_LOCAL_PTR(int) tls_marker;
+static int g_tls_default = 0;
+// a thread-local pointer with a non-null initial value: every new fiber starts with it, a stored nullptr is a value too
+static YACLIB_THREAD_LOCAL_PTR(int) tls_init{&g_tls_default};
 
 void ThreadCase(Ctx& ctx) {
   int n = static_cast<int>(ctx.rng.In(1, 4));
@@ -590,10 +630,12 @@ void ThreadCase(Ctx& ctx) {
   std::vector<int> slots(static_cast<std::size_t>(n), 0);
   std::vector<int> tls_ok(static_cast<std::size_t>(n), 1);
   std::vector<u32> work;
+  std::vector<u32> plan;
   for (int i = 0; i < n; ++i) {
     work.push_back(ctx.rng.Below(6));
+    plan.push_back(static_cast<u32>(ctx.rng.Next()));
   }
-  ctx.Note("%d threads: join-after-finish and per-fiber thread-local pointer", n);
+  ctx.Note("%d threads: join-after-finish and per-fiber thread-local pointers (one with a non-null initial value, stores of nullptr)", n);
   int main_slot = -1;
   tls_marker = &main_slot;
   {
@@ -602,9 +644,23 @@ void ThreadCase(Ctx& ctx) {
       ts.emplace_back([&, i] {
         auto k = static_cast<std::size_t>(i);
         tls_marker = &slots[k];
+        // model of this fiber's view of tls_init: starts with the initializer, then whatever it stored last
+        int* model = &g_tls_default;
+        if (tls_init.Get() != model) {
+          tls_ok[k] = 0;
+        }
+        u32 pattern = plan[k];
         for (u32 y = 0; y < work[k]; ++y) {
+          u32 step = (pattern >> (2 * y)) & 3U;
+          if (step == 1) {
+            model = &slots[k];
+            tls_init = model;
+          } else if (step == 2) {
+            model = nullptr;
+            tls_init = model;
+          }
           yaclib_std::this_thread::yield();
-          if (tls_marker.Get() != &slots[k]) {
+          if (tls_marker.Get() != &slots[k] || tls_init.Get() != model) {
             tls_ok[k] = 0;
           }
         }
@@ -624,7 +680,7 @@ void ThreadCase(Ctx& ctx) {
   }
   for (int i = 0; i < n; ++i) {
     ctx.Check(tls_ok[static_cast<std::size_t>(i)] == 1, "tls-not-per-fiber", "C18",
-              "fiber %d read another fiber's thread-local pointer", i);
+              "fiber %d read a thread-local pointer that is not what this fiber stored last (or the initial value)", i);
   }
   ctx.Check(tls_marker.Get() == &main_slot, "tls-not-per-fiber", "C18",
             "the parent's thread-local pointer was overwritten by a child");
